@@ -30,6 +30,11 @@ func genH265Nal(c *RNG, size int) []byte {
 	if b[2] == 0 && b[1] == 0 {
 		b[2] = 3
 	}
+	if b[0] == 0 && b[1] == 0 && b[2] == 1 {
+		// the header bytes were drawn after the body: 00 00 01 at the head of a unit is a start code, not a unit
+		// (seen once in the thorough tier: the splitter rightly cut there and the oracle's expectation did not)
+		b[2] = 2
+	}
 	return b
 }
 
@@ -205,7 +210,9 @@ func runH265Parse(donl bool, payloads [][]byte) Outcome {
 		}
 		// RFC 7798 4.4.3, from the bytes: only a fragmentation unit (type 49, bits 1-6 of the first byte,
 		// whatever the F bit says) without its S bit is not the head of a partition
-		if wantHead := len(in) >= 3 && !(in[0]>>1&0x3F == 49 && in[2]&0x80 == 0); head != wantHead && o.Fail == "" {
+		// (judged on payloads the parser accepts: what the predicate says about a string that is no RFC 7798
+		// payload at all is nobody's clause - C09 asks only that it does not panic)
+		if wantHead := len(in) >= 3 && !(in[0]>>1&0x3F == 49 && in[2]&0x80 == 0); err == nil && head != wantHead && o.Fail == "" {
 			o.Fail = fmt.Sprintf("step %d: IsPartitionHead(%x) = %v, the payload header and FU header say %v", i, in[:minInt(len(in), 4)], head, wantHead)
 		}
 		if err != nil {
@@ -404,6 +411,23 @@ func sameUnits(a, b [][]byte) bool {
 	return true
 }
 
+// annexBCarriable: a unit an Annex-B stream can carry as given - no start code (or 00 00 00) inside, no zero
+// byte at the end.  The lossless oracles judge only such units: a case that is not of this form is a slip of
+// its generator, not a statement about the library.
+func annexBCarriable(nals [][]byte) bool {
+	for _, n := range nals {
+		if len(n) == 0 || n[len(n)-1] == 0 {
+			return false
+		}
+		for i := 0; i+2 < len(n); i++ {
+			if n[i] == 0 && n[i+1] == 0 && n[i+2] <= 1 {
+				return false
+			}
+		}
+	}
+	return true
+}
+
 func runH265Lossless(donl, skip bool, calls []Tok) Outcome {
 	streams, mtus, nals := h265Units(calls)
 	hist := TList{}
@@ -418,6 +442,10 @@ func runH265Lossless(donl, skip bool, calls []Tok) Outcome {
 	var frags [][]byte
 	for i := range streams {
 		frags = append(frags, p.Payload(uint16(mtus[i]), append([]byte{}, streams[i]...))...)
+	}
+	if !annexBCarriable(nals) {
+		o.Tags = append(o.Tags, "units not carriable in Annex-B: not judged")
+		return o
 	}
 	got, why := h265Reassemble(donl, frags)
 	if why == "" && !sameUnits(got, nals) {
@@ -600,6 +628,10 @@ func runRfc7798Form(donl bool, f []Tok) Outcome {
 	d := &codecs.H265Packet{}
 	d.WithDONL(donl)
 	if _, err := d.Unmarshal(append([]byte{}, wire...)); err != nil {
+		if tokInt(f[0]) == 2 && tokInt(f[3]) != 0 && tokInt(f[4]) != 0 {
+			// a fragment with S and E both set is not well-formed (RFC 7798 4.4.3: MUST NOT): a parser may refuse it
+			return o
+		}
 		fail("well-formed RFC 7798 payload %x rejected: %v", wire, err)
 		return o
 	}
